@@ -6,7 +6,7 @@ from . import refsem
 OPERATOR_NAMES = {
     "Select", "Where", "SelectMany", "First", "Count", "len", "abs", "Aggregate", "MetaData",
     "EventDataset", "ResultTTree", "ResultParquet", "ResultPandasDF", "ResultAwkwardArray",
-    "Min", "Max", "Sum",
+    "Min", "Max", "Sum", "kwfn",
 }
 
 
